@@ -7,6 +7,7 @@ import (
 	"net/http"
 	"net/http/httptest"
 	"strings"
+	"sync"
 	"time"
 
 	"github.com/gorilla/websocket"
@@ -81,16 +82,21 @@ type c11In struct {
 var errC11Closed = errors.New("use of closed network connection (script ended)")
 
 type c11ME struct {
+	mu      sync.Mutex
 	script  []c11In
 	pos     int
 	sent    []message
 	sending bool
 	overlap bool
 	preempt bool
+	preemptRead bool // a scheduling decision before every frame is read
 	blockAtEnd chan struct{} // if set, NextMessage blocks on it after the script (until the connection is closed)
 }
 
 func (me *c11ME) NextMessage() (message, error) {
+	if me.preemptRead {
+		zzsym.Preempt()
+	}
 	if me.pos >= len(me.script) {
 		if me.blockAtEnd != nil {
 			<-me.blockAtEnd
@@ -110,12 +116,16 @@ func (me *c11ME) Send(m *message) error {
 	if me.preempt {
 		zzsym.Preempt()
 	}
+	me.mu.Lock()
 	me.sent = append(me.sent, *m)
+	me.mu.Unlock()
 	me.sending = false
 	return nil
 }
 
 func (me *c11ME) types() []messageType {
+	me.mu.Lock()
+	defer me.mu.Unlock()
 	var r []messageType
 	for _, m := range me.sent {
 		r = append(r, m.t)
@@ -125,6 +135,8 @@ func (me *c11ME) types() []messageType {
 
 // framesFor returns the frame types sent for operation id, in order.
 func (me *c11ME) framesFor(id string) []messageType {
+	me.mu.Lock()
+	defer me.mu.Unlock()
 	var r []messageType
 	for _, m := range me.sent {
 		if m.id == id && (m.t == dataMessageType || m.t == errorMessageType || m.t == completeMessageType) {
@@ -161,9 +173,22 @@ type c11Exec struct {
 	panicAt   int // -1 never
 	subErr    bool
 	longLived bool // after the payloads, wait for the operation context to be cancelled
+	mu        sync.Mutex
 	started   int
 	cancelled int
 	finished  int
+}
+
+func (e *c11Exec) count(p *int) {
+	e.mu.Lock()
+	*p++
+	e.mu.Unlock()
+}
+
+func (e *c11Exec) counts() (int, int, int) {
+	e.mu.Lock()
+	defer e.mu.Unlock()
+	return e.started, e.cancelled, e.finished
 }
 
 func (e *c11Exec) CreateOperationContext(ctx context.Context, params *graphql.RawParams) (*graphql.OperationContext, gqlerror.List) {
@@ -180,7 +205,7 @@ func (e *c11Exec) CreateOperationContext(ctx context.Context, params *graphql.Ra
 }
 
 func (e *c11Exec) DispatchOperation(ctx context.Context, rc *graphql.OperationContext) (graphql.ResponseHandler, context.Context) {
-	e.started++
+	e.count(&e.started)
 	n := 0
 	return func(ctx context.Context) *graphql.Response {
 		k := n
@@ -196,9 +221,9 @@ func (e *c11Exec) DispatchOperation(ctx context.Context, rc *graphql.OperationCo
 		}
 		if e.longLived {
 			<-ctx.Done()
-			e.cancelled++
+			e.count(&e.cancelled)
 		}
-		e.finished++
+		e.count(&e.finished)
 		return nil
 	}, ctx
 }
@@ -208,15 +233,30 @@ func (e *c11Exec) DispatchError(ctx context.Context, list gqlerror.List) *graphq
 }
 
 type c11Conf struct {
-	closes    []int
-	inits     int
-	errs      int
+	mu     sync.Mutex
+	closes []int
+	inits  int
+	errs   int
+}
+
+func (cf *c11Conf) nCloses() int {
+	cf.mu.Lock()
+	defer cf.mu.Unlock()
+	return len(cf.closes)
 }
 
 func c11New(me *c11ME, ex *c11Exec, cf *c11Conf, initMode int) *wsConnection {
 	t := Websocket{
-		CloseFunc: func(ctx context.Context, closeCode int) { cf.closes = append(cf.closes, closeCode) },
-		ErrorFunc: func(ctx context.Context, err error) { cf.errs++ },
+		CloseFunc: func(ctx context.Context, closeCode int) {
+			cf.mu.Lock()
+			cf.closes = append(cf.closes, closeCode)
+			cf.mu.Unlock()
+		},
+		ErrorFunc: func(ctx context.Context, err error) {
+			cf.mu.Lock()
+			cf.errs++
+			cf.mu.Unlock()
+		},
 	}
 	switch initMode {
 	case 1:
@@ -280,13 +320,13 @@ func Harness_C11_init() {
 		ts := me.types()
 		zzsym.Assert(len(ts) == 2 && ts[0] == connectionAckMessageType && ts[1] == keepAliveMessageType, "an accepted handshake is acknowledged")
 		zzsym.Assert((len(me.sent[0].payload) > 0) == (initMode == 3), "the ack carries the init function's payload")
-		zzsym.Assert(len(cf.closes) == 0, "an accepted connection is not closed")
+		zzsym.Assert(cf.nCloses() == 0, "an accepted connection is not closed")
 		zzsym.Reach("c11.init.accepted")
 	} else {
 		for _, t := range me.types() {
 			zzsym.Assert(t != connectionAckMessageType, "no ack on a refused handshake")
 		}
-		zzsym.Assert(len(cf.closes) == 1, "a refused handshake closes the connection (close callback exactly once)")
+		zzsym.Assert(cf.nCloses() == 1, "a refused handshake closes the connection (close callback exactly once)")
 		zzsym.Reach("c11.init.refused")
 	}
 	if kind != int(initMessageType) || !payloadOK {
@@ -329,8 +369,89 @@ func Harness_C11_subscribe() {
 		zzsym.Assert(nd == wantData, "every result produced before the end is delivered, in order")
 		zzsym.Reach("c11.sub.ran")
 	} else {
-		zzsym.Assert(ex.started == 0, "a rejected or undecodable start executes nothing")
+		ns, _, _ := ex.counts()
+		zzsym.Assert(ns == 0, "a rejected or undecodable start executes nothing")
 		zzsym.Reach("c11.sub.rejected")
 	}
 	zzsym.Assert(!me.overlap, "frames are never written concurrently")
+}
+
+// c11Script builds the client script: up to n frames from the alphabet.
+func c11Frame(k int) c11In {
+	start := func(id string) c11In {
+		return c11In{m: message{t: startMessageType, id: id, payload: json.RawMessage(`{"query":"subscription { ticks }"}`)}}
+	}
+	switch k {
+	case 0:
+		return start("a")
+	case 1:
+		return start("b")
+	case 2:
+		return c11In{m: message{t: stopMessageType, id: "a"}}
+	case 3:
+		return c11In{m: message{t: stopMessageType, id: "b"}}
+	case 4:
+		return c11In{m: message{t: pingMessageType, payload: json.RawMessage(`{"p":1}`)}}
+	case 5:
+		return c11In{m: message{t: pongMessageType}}
+	case 6:
+		return c11In{m: message{t: connectionCloseMessageType}}
+	case 7:
+		return c11In{m: message{t: dataMessageType, id: "a"}} // a frame only the server may send
+	default:
+		return c11In{err: errors.New("connection reset by peer")}
+	}
+}
+
+// Harness_C11_run: the reader loop on every client script of 1..3 frames over
+// {start(a), start(b), stop(a), stop(b), ping, pong, terminate, unexpected
+// frame, read failure} then end of stream, with long-lived operations (one
+// result, then wait for cancellation) that may run between any two frames
+// (a scheduling decision before every frame): every started id gets data*
+// then error and/or complete under its own id, nothing under an id that was
+// never started, stop / close / terminate cancel the affected operations,
+// every goroutine ends and the close callback runs exactly once.
+func Harness_C11_run() {
+	c11Subprotocol = []string{graphqlwsSubprotocol, graphqltransportwsSubprotocol}[zzsym.Choice("subprotocol", 2)]
+	n := 1 + zzsym.Choice("len", zzsym.Param("maxlen", 3))
+	me := &c11ME{preemptRead: true}
+	started := map[string]int{}
+	terminated := false
+	for k := 0; k < n; k++ {
+		f := zzsym.Choice("frame", 9)
+		in := c11Frame(f)
+		me.script = append(me.script, in)
+		if !terminated && in.err == nil && in.m.t == startMessageType {
+			started[in.m.id]++
+		}
+		if in.err != nil || in.m.t == connectionCloseMessageType || in.m.t == dataMessageType {
+			terminated = true // the loop ends here: later frames are never read
+		}
+	}
+	zzsym.Assume(started["a"] <= 1 && started["b"] <= 1) // duplicate ids are outside the bound
+	ex := &c11Exec{payloads: 1, panicAt: -1, longLived: true}
+	cf := &c11Conf{}
+	c := c11New(me, ex, cf, 0)
+	c.run()
+	left := zzsym.Quiesce()
+	zzsym.Assert(left == 0, "all connection goroutines end once the connection is over")
+	zzsym.Assert(cf.nCloses() == 1, "the close callback fires exactly once")
+	for _, id := range []string{"a", "b"} {
+		fr := me.framesFor(id)
+		if started[id] > 0 {
+			zzsym.Assert(c11WellFormed(fr), "a started id receives data*, then error and/or complete, nothing after")
+			zzsym.Reach("c11.run.op")
+		} else {
+			zzsym.Assert(len(fr) == 0, "no result, error or completion for an id that was never started")
+		}
+	}
+	zzsym.Assert(len(me.framesFor("")) == 0, "no operation frame without an id")
+	nStarted, nCancelled, nFinished := ex.counts()
+	zzsym.Assert(nStarted == started["a"]+started["b"], "each start frame read before the end starts one operation")
+	zzsym.Assert(nCancelled == nStarted && nFinished == nStarted, "stop / close cancels every affected operation and it ends")
+	c.mu.Lock()
+	zzsym.Assert(len(c.active) == 0, "no operation stays registered")
+	c.mu.Unlock()
+	zzsym.Assert(!me.overlap, "frames are never written concurrently")
+	zzsym.Reach("c11.run")
 }
